@@ -12,6 +12,7 @@ import (
 	"strings"
 
 	sm "github.com/lidofinance/dc4bc/fsm/state_machines"
+	"github.com/lidofinance/dc4bc/fsm/types/requests"
 )
 
 type fsmMonitor struct {
@@ -247,6 +248,23 @@ func (m *fsmMonitor) check(preBz []byte, inst *sm.FSMInstance, ev string, args [
 		m.count("C06.restart")
 		if post.State != "stage_signing_idle" {
 			m.report("C06", "returns_to_idle", "restart led to "+post.State, idx, ev, args)
+		}
+	}
+	if pre.State == "stage_signing_idle" && ev == "event_signing_start" && args[0] == "signStart" {
+		// C03: the proposal kept in the round (and handed to signer and reconstruction) is the proposal
+		if sp := post.Payload.SigningProposalPayload; sp != nil {
+			req := buildReq(args).(requests.SigningBatchProposalStartRequest)
+			m.count("C03.srcpayload")
+			if want, got := rTasks(req.SigningTasks), rTasksJSON(sp.SrcPayload); want != got {
+				m.report("C03", "srcpayload_exact", "proposed tasks "+want+" kept as "+got, idx, ev, args)
+			}
+			w1, e1 := requests.TasksToMessages(req.SigningTasks)
+			var kept []requests.SigningTask
+			json.Unmarshal(sp.SrcPayload, &kept)
+			w2, e2 := requests.TasksToMessages(kept)
+			if (e1 == nil) != (e2 == nil) || fmt.Sprint(w1) != fmt.Sprint(w2) {
+				m.report("C03", "same_expansion", "the kept proposal expands differently from the proposal on the board", idx, ev, args)
+			}
 		}
 	}
 	if pre.State == "stage_signing_idle" && ev == "event_signing_start" {
